@@ -6,6 +6,7 @@ require (
 	github.com/VolantMQ/vlapi v0.5.6
 	github.com/VolantMQ/volantmq v0.0.0
 	github.com/gobwas/ws v1.0.2
+	github.com/troian/healthcheck v0.1.3
 	gitlab.com/VolantMQ/vlplugin/persistence/mem v0.0.7
 )
 
